@@ -390,7 +390,7 @@ def feature_tags(case):
             if it.get("pspell"):
                 t.add("pathspell:" + it["t"])
             if it.get("thread"):
-                t.add("load:thread")
+                t.add(("load" if it["t"] == "load" else "keep") + ":thread")
             if it["t"] == "shadow" and it["name"] in ir.BUILTIN_NAMES:
                 t.add("shadow:builtin")
             if it.get("rtarg") is not None:
